@@ -26,7 +26,7 @@ HooksOf(js) == [h \in {js[i].id : i \in DOMAIN js} |->
 
 ModelHooks(hs) == [h \in DOMAIN hs |-> [kind |-> hs[h].kind, events |-> hs[h].events, weight |-> hs[h].weight]]
 
-ManOf(jm) == [r \in DOMAIN jm |-> [kind |-> jm[r].kind, f1 |-> jm[r].f1, f2 |-> jm[r].f2, pol |-> jm[r].pol]]
+ManOf(jm) == [r \in DOMAIN jm |-> [kind |-> jm[r].kind, f1 |-> jm[r].f1, f2 |-> jm[r].f2, pol |-> jm[r].pol, ver |-> jm[r].ver]]
 
 StoreMatches(s, js) ==
   /\ DOMAIN js \subseteq {ToString(r) : r \in Rev}
